@@ -703,7 +703,12 @@ func keyValue(t *rapid.T, p Profile) V {
 		return Pick(t, "kvStr", []string{"x", "y", "", "1"})
 	case r < 90:
 		return Chance(t, "kvBool", 50)
-	case r < 95:
+	case r < 93:
+		if !p.NullFree {
+			return nil // an explicit null is a key value like any other
+		}
+		return "n"
+	case r < 96:
 		return []V{float64(Int(t, "kvArr", 0, 2))}
 	default:
 		return map[string]V{"n": float64(Int(t, "kvObj", 0, 2))}
